@@ -36,7 +36,7 @@ def execute(group):
     for o in obls:
         thr = float(common.frac(o["thr"]))
         assert thr == (m[o["i"] - 1] ** 2) * (k[o["i"] - 1] ** 2), "matching scale not exactly representable"
-        q2s.append(q2_of(thr, o["cls"]))
+        q2s.append(q2_of(thr, o["cls"]) if not o.get("unordered") else thr * 1.1)
     th = cards.theory(PTO=2, PTODIS=2, FNS=o0["fns"], NfFF=o0["nfff"], mc=m[0], mb=m[1], mt=m[2], kcThr=k[0], kbThr=k[1],
                       ktThr=k[2], Q0=1.0)
     xg = cards.make_grid(4, 4, x_min=1e-2)
@@ -94,7 +94,7 @@ def run(ctx):
     groups = {}
     for o in obls:
         o["oid"] = common.oid_of("C06", {k: o[k] for k in ("fns", "nfff", "m", "k", "i", "cls")})
-        if not o["valid"]:
+        if not o["valid"] and not (o["unordered"] and o["fns"] == "ZM-VFNS" and o["cls"] == "at"):
             continue
         groups.setdefault((o["fns"], o["nfff"], repr(o["m"]), repr(o["k"])), []).append(o)
     ctx.cov["obligations_emitted"] = len(obls)
